@@ -38,14 +38,14 @@ def stepLabel (op : String) (args : List String) : Option String :=
     pure (showResL showNames (labelsFromBytes b))
   | "labenc", [s] => do
     let ns ← parseNames s
-    pure (showResL hex ({ Labels.new with labels := ns }).toBytes)
+    pure (showResL hex ({ Labels.new with labels := ns }).toBytesR)
   | "labre", [h] => do
     let b ← unhex h
-    pure (showResL hex ((Labels.fromBytes (some b)).bind Labels.toBytes))
+    pure (showResL hex ((Labels.fromBytes (some b)).bind Labels.toBytesR))
   | "labedit", [h, s] => do
     let b ← unhex h
     let ns ← parseNames s
-    pure (showResL hex ((Labels.fromBytes (some b)).bind (fun l => ({ l with labels := ns }).toBytes)))
+    pure (showResL hex ((Labels.fromBytes (some b)).bind (fun l => ({ l with labels := ns }).toBytesR)))
   | _, _ => none
 
 end Dhcp.Driver
